@@ -364,8 +364,18 @@ class Format:
     def decode_kwargs(self, v):
         return {}
 
-    def lib_decode(self, b, v):
-        return self.lib_cls().unmarshall_datain(bytearray(b), **self.decode_kwargs(v))
+    def lib_decode(self, b, v, variant=0):
+        """variant 0: a bytearray and keyword arguments; 1: an immutable bytes object; 2: the extra arguments given by position in
+        the documented order (vmon/spec/decoder_sig.json, snapshot of the signatures at the pinned commit)"""
+        kw = self.decode_kwargs(v)
+        if variant == 1:
+            return self.lib_cls().unmarshall_datain(bytes(b), **kw)
+        if variant == 2:
+            from .. import harness
+
+            args, kw = harness.split_positional(harness._sig("decoder")[self.name], kw)
+            return self.lib_cls().unmarshall_datain(bytearray(b), *args, **kw)
+        return self.lib_cls().unmarshall_datain(bytearray(b), **kw)
 
     def lib_build(self, d):
         return self.lib_cls().marshall_datain(d)
